@@ -191,7 +191,9 @@ def check(ctx: Ctx) -> None:
     for table, var in (("_METHODS", "methods"), ("_WEIGHT_FUNCTIONS", "weights")):
         ctx.instance("R12.4", f"fit_circuit validates {var} against {table} before work starts")
         guards = [n for n in fc.node.body if isinstance(n, ast.If) and always_exits(n.body) and table in norm(n.test) and var in norm(n.test) and n.lineno < withs[0].lineno]
-        loops = [n for n in walk_ordered(withs[0]) if isinstance(n, ast.For) and norm(n.iter) == var]
+        # the validated list is what is iterated (statement loop or comprehension), after the guard
+        loops = [n for n in walk_ordered(fc.node) if isinstance(n, (ast.For, ast.comprehension)) and norm(n.iter) == var
+                 and guards and getattr(n, "lineno", getattr(n.iter, "lineno", 0)) > guards[0].lineno]
         if guards and loops:
             ctx.ok()
         else:
